@@ -8,7 +8,8 @@ args = [a for a in sys.argv[1:] if not a.startswith('--')]
 opts = dict(a[2:].split('=') for a in sys.argv[1:] if a.startswith('--') and '=' in a)
 NW = int(opts.get('workers', 4))
 CORPUS = opts.get('corpus', 'seeded')
-ids = args or sorted(os.listdir('/verif/' + CORPUS))
+BASE = os.path.dirname(os.path.dirname(os.path.abspath(__file__)))      # the checkout this script lives in (a `vp run` snapshot sweeps with its own evidence/ and out/)
+ids = args or sorted(os.listdir(BASE + '/' + CORPUS))
 COST = dict(C02=95, C03=60, C04=45, C05=70, C01=30, C19=35, C07=10, C09=25, C16=15, C15=20, C17=25)
 
 
@@ -31,7 +32,7 @@ lock = threading.Lock()
 
 
 def worker(k):
-    d = '/tmp/sweepwt_%d' % k
+    d = '/tmp/sweepwt_%s_%d_%d' % (CORPUS, os.getpid(), k)
     run('git -C /repo worktree remove --force %s' % d)
     r = run('git -C /repo worktree add -q --detach %s HEAD' % d)
     if r.returncode != 0:
@@ -44,7 +45,7 @@ def worker(k):
     try:
         for p in buckets[k]:
             for sid in groups[p]:
-                sd = '/verif/%s/%s' % (CORPUS, sid)
+                sd = '%s/%s/%s' % (BASE, CORPUS, sid)
                 ap = run('git -C %s apply %s/patch.diff' % (d, sd))
                 if ap.returncode != 0:
                     with lock:
@@ -53,7 +54,7 @@ def worker(k):
                     continue
                 try:
                     t0 = time.time()
-                    c = run('cd /verif && DADI_REPO=%s ./check %s --tier quick' % (d, p), timeout=5400)
+                    c = run('cd %s && DADI_REPO=%s ./check %s --tier quick' % (BASE, d, p), timeout=5400)
                     v = [l for l in c.stdout.split('\n') if l.startswith('VIOLATION')]
                     proof = [l.split('obligation=')[1][:110] for l in v if '/bounded/' not in l]
                     bnd = [l.split('obligation=')[1][:80] for l in v if '/bounded/' in l]
@@ -82,7 +83,7 @@ for t in ths:
 for t in ths:
     t.join()
 run('git -C /repo worktree prune')
-run('cd /verif && git checkout -- evidence out/replay; git clean -fdq out/replay')
+run('cd %s && git checkout -- evidence out/replay; git clean -fdq out/replay' % BASE)
 if CORPUS == 'seeded':
     missed = [s for s in ids if not isinstance(summary.get(s), dict) or summary[s]['exit'] != 1]
     noproof = [s for s in ids if isinstance(summary.get(s), dict) and summary[s]['exit'] == 1 and summary[s]['n_proof'] == 0]
